@@ -47,7 +47,13 @@ fn main() {
         eprintln!("INCONCLUSIVE watchdog fired after {} s", limit);
         std::process::exit(2);
     });
-    let code = match id.as_str() {
+    let code = dispatch(id.as_str(), tier, seed, replay);
+    std::process::exit(code);
+}
+
+#[cfg(not(vls_verif))]
+fn dispatch(id: &str, tier: Tier, seed: u64, replay: Option<PathBuf>) -> i32 {
+    match id {
         "C01" => run_prop(holder::C01, tier, seed, replay),
         "C02" => run_prop(holder::C02, tier, seed, replay),
         "C03" => run_prop(c03::C03, tier, seed, replay),
@@ -70,6 +76,16 @@ fn main() {
             eprintln!("unknown property {}", id);
             2
         }
-    };
-    std::process::exit(code);
+    }
+}
+
+#[cfg(vls_verif)]
+fn dispatch(id: &str, tier: Tier, seed: u64, replay: Option<PathBuf>) -> i32 {
+    match id {
+        "C20" => run_prop(c20::C20, tier, seed, replay),
+        _ => {
+            eprintln!("property {} is not built with --cfg vls_verif", id);
+            2
+        }
+    }
 }
